@@ -124,9 +124,11 @@ impl Zw {
         let re = f[0] + (f[1] - f[3]) * s;
         let im = f[2] + (f[1] + f[3]) * s;
         // value = (re + i im) * 2^shift * sqrt2^k
+        // applied in two steps: a single factor 2^e2 is subnormal (imprecise) or zero below 2^-1022 although the product is normal
         let e2 = shift as f64 + (c.k as f64) / 2.0;
-        let m = e2.exp2();
-        Complex64::new(re * m, im * m)
+        let h = (e2 / 2.0).floor();
+        let (m1, m2) = (h.exp2(), (e2 - h).exp2());
+        Complex64::new(re * m1 * m2, im * m1 * m2)
     }
     /// |value|^2 as an exact element (value * conj)
     pub fn norm_sqr(&self) -> Zw {
